@@ -1459,6 +1459,244 @@ def _multi_db(tree: ast.Module) -> dict:
                 digests={'engine_def': ast_digest(ed_raw), 'engine_dbase': ast_digest(eb_raw), 'add_engine_database': ast_digest(ad)})
 
 
+# ------------------------------------------------------------------------------------------ type text of keyvalue / IO lines
+def _value_type_lookup(tree: ast.Module) -> tuple[list[tuple[str, str]], dict[str, str]]:
+    """VALUE_TYPE_LOOKUP as the module builds it: [(key, ValueTypes.value of the member)] in look-up order (a later assignment to a
+    key wins, so the explicit `VALUE_TYPE_LOOKUP['bool'] = ...` entries come first), and member name (aliases resolved) -> value."""
+    members, alias = enum_members(_cls(tree, 'ValueTypes'))
+    value_of = {n: v for n, v in members}
+    for a, c in alias.items():
+        value_of[a] = value_of[c]
+    if not all(isinstance(v, str) for v in value_of.values()):
+        raise TranslateError('ValueTypes: a member value is not a string')
+    comp = _module_assign(tree, 'VALUE_TYPE_LOOKUP')
+    ok = (isinstance(comp, ast.DictComp) and len(comp.generators) == 1 and not comp.generators[0].ifs and not comp.generators[0].is_async
+          and isinstance(comp.generators[0].target, ast.Name) and _is(comp.generators[0].iter, 'ValueTypes'))
+    if ok:
+        v = comp.generators[0].target.id   # type: ignore[union-attr]
+        ok = _is(comp.key, f'{v}.value') and _is(comp.value, v)   # type: ignore[union-attr]
+    if not ok:
+        raise TranslateError('VALUE_TYPE_LOOKUP is not `{typ.value: typ for typ in ValueTypes}`')
+    extras: list[tuple[str, str]] = []
+    defined = False
+    for st in tree.body:
+        names = {n.id for n in ast.walk(st) if isinstance(n, ast.Name)}
+        if 'VALUE_TYPE_LOOKUP' not in names:
+            continue
+        if isinstance(st, (ast.Assign, ast.AnnAssign)) and not defined and (st.value is comp):
+            defined = True
+            continue
+        if isinstance(st, (ast.FunctionDef, ast.ClassDef)):
+            for n in ast.walk(st):
+                if isinstance(n, ast.Name) and n.id == 'VALUE_TYPE_LOOKUP' and not isinstance(n.ctx, ast.Load):
+                    raise TranslateError(f'VALUE_TYPE_LOOKUP re-bound at line {n.lineno}')
+                if isinstance(n, ast.Subscript) and _is(n.value, 'VALUE_TYPE_LOOKUP') and not isinstance(n.ctx, ast.Load):
+                    raise TranslateError(f'VALUE_TYPE_LOOKUP modified at line {n.lineno}')
+                if isinstance(n, ast.Attribute) and _is(n.value, 'VALUE_TYPE_LOOKUP') and n.attr not in ('get', 'keys', 'values', 'items'):
+                    raise TranslateError(f'VALUE_TYPE_LOOKUP.{n.attr} at line {n.lineno} not supported')
+            continue
+        if (defined and isinstance(st, ast.Assign) and len(st.targets) == 1 and isinstance(st.targets[0], ast.Subscript)
+                and _is(st.targets[0].value, 'VALUE_TYPE_LOOKUP') and isinstance(st.value, ast.Attribute) and _is(st.value.value, 'ValueTypes')
+                and st.value.attr in value_of):
+            extras.append((_const(st.targets[0].slice, str, 'VALUE_TYPE_LOOKUP key'), value_of[st.value.attr]))
+            continue
+        raise TranslateError(f'module statement about VALUE_TYPE_LOOKUP not recognised at line {st.lineno}: {ast.unparse(st)[:80]}')
+    table: list[tuple[str, str]] = []
+    for k, v in reversed(extras):
+        if k not in dict(table):
+            table.append((k, v))
+    for _, v in members:
+        if v not in dict(table):
+            table.append((v, v))
+    return table, value_of
+
+
+def _ctor_arg(fn: ast.FunctionDef, keyword: str, position: int) -> str:
+    """The local passed as `keyword` (or at `position`) to the constructor call in the returned `(tags, Cls(...))` tuple."""
+    rets = [n for n in ast.walk(fn) if isinstance(n, ast.Return)]
+    if len(rets) != 1 or not (isinstance(rets[0].value, ast.Tuple) and len(rets[0].value.elts) == 2 and isinstance(rets[0].value.elts[1], ast.Call)):
+        raise TranslateError(f'{fn.name}: the single `return tags, Cls(...)` was not found')
+    call = rets[0].value.elts[1]
+    for kw in call.keywords:
+        if kw.arg == keyword:
+            arg: ast.AST = kw.value
+            break
+    else:
+        if len(call.args) <= position or any(isinstance(a, ast.Starred) for a in call.args):
+            raise TranslateError(f'{fn.name}: constructor argument `{keyword}` not found')
+        arg = call.args[position]
+    if not isinstance(arg, ast.Name):
+        raise TranslateError(f'{fn.name}: constructor argument `{keyword}` is not a local')
+    return arg.id
+
+
+def _type_prog(fn: ast.FunctionDef, value_of: dict[str, str], what: str, flag_kw: tuple[str, int] | None) -> tuple[str, dict]:
+    """Symbolic execution of the part of KVDef._parse / IODef._parse that turns the text of the PAREN_ARGS token into the type: every
+    string compared, looked up or stored becomes an expression over the raw token text (strip / casefold / [1:]); the result is a
+    Fmt/FgdTypeText.tprog.  Fail-closed on every statement that touches the tracked names in another way."""
+    tvar = _ctor_arg(fn, 'type', 1)
+    fvar = _ctor_arg(fn, *flag_kw) if flag_kw else None
+    params = {a.arg for a in ast.walk(fn.args) if isinstance(a, ast.arg)}
+    body = _body(fn)
+    raw = None
+    start = 0
+    for i, st in enumerate(body):
+        if (isinstance(st, ast.Assign) and len(st.targets) == 1 and isinstance(st.targets[0], ast.Tuple) and len(st.targets[0].elts) == 2
+                and all(isinstance(e, ast.Name) for e in st.targets[0].elts) and isinstance(st.value, ast.Call) and not st.value.args):
+            raw, start = st.targets[0].elts[1].id, i + 1   # type: ignore[attr-defined]
+            break
+    if raw is None:
+        raise TranslateError(f'{what}: `token, text = tok()` not found')
+    consumed: set[int] = set()
+
+    def sx(node: ast.AST, env: dict[str, str]) -> str | None:
+        if isinstance(node, ast.Name):
+            return env.get(node.id)
+        if isinstance(node, ast.Call) and isinstance(node.func, ast.Attribute) and not node.args and not node.keywords:
+            inner = sx(node.func.value, env)
+            if inner is None:
+                return None
+            if node.func.attr == 'strip':
+                return f'(SStrip {inner})'
+            if node.func.attr in ('casefold', 'lower'):
+                return f'(SFold {inner})'
+            raise TranslateError(f'{what}: str method .{node.func.attr}() on the type text not supported')
+        if isinstance(node, ast.Subscript):
+            inner = sx(node.value, env)
+            if inner is None:
+                return None
+            if isinstance(node.slice, ast.Slice) and node.slice.upper is None and node.slice.step is None and _is(node.slice.lower, '1'):
+                return f'(STail {inner})'
+            raise TranslateError(f'{what}: subscript of the type text not supported: {ast.unparse(node)}')
+        return None
+
+    def member(node: ast.AST) -> str:
+        if isinstance(node, ast.Attribute) and _is(node.value, 'ValueTypes') and node.attr in value_of:
+            return value_of[node.attr]
+        raise TranslateError(f'{what}: {ast.unparse(node)} is not a ValueTypes member')
+
+    def assigns_type(st: ast.stmt) -> ast.AST | None:
+        if isinstance(st, ast.Assign) and len(st.targets) == 1 and isinstance(st.targets[0], ast.Name) and st.targets[0].id == tvar:
+            consumed.add(id(st))
+            return st.value
+        return None
+
+    def lookup(st: ast.Try, env: dict[str, str]) -> str:
+        if len(st.body) != 1 or st.orelse or st.finalbody or len(st.handlers) != 1 or not _is(st.handlers[0].type, 'KeyError'):
+            raise TranslateError(f'{what}: try statement at line {st.lineno} not recognised')
+        val = assigns_type(st.body[0])
+        if not (isinstance(val, ast.Subscript) and _is(val.value, 'VALUE_TYPE_LOOKUP')):
+            raise TranslateError(f'{what}: the try body is not `T = VALUE_TYPE_LOOKUP[key]`')
+        key = sx(val.slice, env)
+        if key is None:
+            raise TranslateError(f'{what}: look-up key {ast.unparse(val.slice)} is not an expression over the type text')
+        fallback = None
+        for h in st.handlers[0].body:
+            if isinstance(h, ast.If) and isinstance(h.test, ast.Name) and h.test.id in params:
+                if not h.orelse or not all(isinstance(x, ast.Raise) for x in h.orelse):
+                    raise TranslateError(f'{what}: the strict branch of the unknown-type handler does not raise')
+                for x in h.body:
+                    v = assigns_type(x)
+                    if v is not None:
+                        if fallback is not None:
+                            raise TranslateError(f'{what}: two fall-back assignments')
+                        fallback = sx(v, env)
+                        if fallback is None:
+                            raise TranslateError(f'{what}: fall-back {ast.unparse(v)} is not an expression over the type text')
+                    elif _stores(x) & (set(env) | {tvar}) or not isinstance(x, ast.Expr):
+                        raise TranslateError(f'{what}: statement in the unknown-type handler not recognised: {ast.unparse(x)[:60]}')
+            elif _stores(h) & (set(env) | {tvar}) or not isinstance(h, (ast.Assign, ast.Expr)):
+                raise TranslateError(f'{what}: statement in the unknown-type handler not recognised: {ast.unparse(h)[:60]}')
+        if fallback is None:
+            raise TranslateError(f'{what}: no `if ignore_unknown_valuetype: T = <text>` in the KeyError handler')
+        return f'(PLookup {key} {fallback})'
+
+    def run(stmts: list[ast.stmt], env: dict[str, str]) -> str:
+        for i, st in enumerate(stmts):
+            rest = stmts[i + 1:]
+            if isinstance(st, ast.Try):
+                return lookup(st, env)
+            if isinstance(st, ast.AnnAssign) and st.value is None:
+                continue
+            if isinstance(st, ast.AnnAssign) and isinstance(st.target, ast.Name) and st.simple:
+                st = ast.copy_location(ast.Assign(targets=[st.target], value=st.value), st)
+            if isinstance(st, ast.If):
+                t = st.test
+                if (isinstance(t, ast.Call) and isinstance(t.func, ast.Attribute) and t.func.attr == 'startswith' and len(t.args) == 1
+                        and not t.keywords and sx(t.func.value, env) is not None):
+                    if _const(t.args[0], str, f'{what}: startswith argument') != '*' or st.orelse or fvar is None:
+                        raise TranslateError(f'{what}: prefix test at line {st.lineno} not recognised')
+                    env2 = dict(env)
+                    flagged = False
+                    for x in st.body:
+                        if isinstance(x, ast.Assign) and len(x.targets) == 1 and isinstance(x.targets[0], ast.Name):
+                            if x.targets[0].id == fvar and _is(x.value, 'True'):
+                                flagged = True
+                                continue
+                            v = sx(x.value, env2)
+                            if v is not None:
+                                env2[x.targets[0].id] = v
+                                continue
+                        raise TranslateError(f'{what}: statement under the `*` test not recognised: {ast.unparse(x)[:60]}')
+                    if not flagged:
+                        raise TranslateError(f'{what}: the `*` branch does not set the reportable flag')
+                    return f'(PIfStar {sx(t.func.value, env)} {run(rest, env2)} {run(rest, env)})'
+                if isinstance(t, ast.Compare) and len(t.ops) == 1 and isinstance(t.ops[0], ast.Eq):
+                    a, b = t.left, t.comparators[0]
+                    if sx(b, env) is not None:
+                        a, b = b, a
+                    e = sx(a, env)
+                    if e is not None:
+                        lit = _const(b, str, f'{what}: literal compared with the type text')
+                        if len(st.body) != 1 or assigns_type(st.body[0]) is None:
+                            raise TranslateError(f'{what}: body of `if <text> == {lit!r}` is not one assignment of the type')
+                        return f'(PIfEq {e} {_cstr(lit)} {_cstr(member(st.body[0].value))} {run(list(st.orelse) + rest, env)})'   # type: ignore[attr-defined]
+            if isinstance(st, ast.Assign) and len(st.targets) == 1 and isinstance(st.targets[0], ast.Name):
+                v = sx(st.value, env)
+                if v is not None:
+                    env = {**env, st.targets[0].id: v}
+                    continue
+            hit = _stores(st) & (set(env) | {tvar})
+            if hit:
+                # the only other way the tracked names may be bound: a fresh `token, text = tok()` (after the tags)
+                for n in ast.walk(st):
+                    if isinstance(n, (ast.Assign, ast.AugAssign, ast.AnnAssign, ast.NamedExpr, ast.For, ast.With)) and _stores(n) & hit:
+                        if not (isinstance(n, ast.Assign) and len(n.targets) == 1 and isinstance(n.targets[0], ast.Tuple)
+                                and isinstance(n.value, ast.Call) and not n.value.args and _stores(n) & hit == {raw}):
+                            if isinstance(n, (ast.For, ast.With)) and not (_stores(n) & hit):
+                                continue
+                            if isinstance(n, ast.Assign) and not any(_stores(t) & hit for t in n.targets):
+                                continue
+                            raise TranslateError(f'{what}: the type text is re-bound at line {n.lineno}: {ast.unparse(n)[:60]}')
+                env = {raw: 'SRaw'}
+        raise TranslateError(f'{what}: no VALUE_TYPE_LOOKUP look-up found')
+
+    prog = run(body[start:], {raw: 'SRaw'})
+    total = sum(1 for n in ast.walk(fn) if isinstance(n, ast.Name) and n.id == tvar and isinstance(n.ctx, (ast.Store, ast.Del)))
+    total -= sum(1 for n in ast.walk(fn) if isinstance(n, ast.AnnAssign) and n.value is None and isinstance(n.target, ast.Name) and n.target.id == tvar)
+    if total != len(consumed):
+        raise TranslateError(f'{what}: the type local {tvar} is bound {total} times, the recognised program accounts for {len(consumed)}')
+    return prog, {'raw': raw, 'type_local': tvar, 'flag_local': fvar, 'program': prog}
+
+
+def _type_text(tree: ast.Module) -> dict:
+    table, value_of = _value_type_lookup(tree)
+    kv_prog, kv_side = _type_prog(_method(tree, 'KVDef', '_parse'), value_of, 'KVDef._parse', ('reportable', 7))
+    io_prog, io_side = _type_prog(_method(tree, 'IODef', '_parse'), value_of, 'IODef._parse', None)
+    # writers: the custom branch writes the stored text itself
+    for cls in ('KVDef', 'IODef'):
+        fn = _method(tree, cls, 'export')
+        custom = [n for n in ast.walk(fn) if isinstance(n, ast.JoinedStr) and any(
+            isinstance(v, ast.FormattedValue) and _is(v.value, 'self._type') for v in n.values)]
+        vals = custom[0].values if len(custom) == 1 else []
+        if not (len(vals) == 3 and isinstance(vals[0], ast.Constant) and vals[0].value == '(' and isinstance(vals[1], ast.FormattedValue)
+                and vals[1].conversion == -1 and vals[1].format_spec is None and isinstance(vals[2], ast.Constant)
+                and isinstance(vals[2].value, str) and vals[2].value.strip() == ')'):
+            raise TranslateError(f'{cls}.export: the custom type is not written as `({{self._type}})`')
+    return {'table': table, 'kv_prog': kv_prog, 'io_prog': io_prog, 'kv': kv_side, 'io': io_side}
+
+
+
 # ------------------------------------------------------------------------------------------ emit
 def _nlist(xs) -> str:
     return '[' + '; '.join(str(int(x)) for x in xs) + ']%N'
@@ -1487,13 +1725,14 @@ def translate() -> tuple[str, dict]:
     fe = _fgd_escape(fgd_tree)
     db = _engine_db()
     md = _multi_db(fgd_tree)
+    tt = _type_text(fgd_tree)
     for op in (wl['loop_op'], wl['nl_op']):
         if op not in OPS:
             raise TranslateError(f'comparison operator {op} not supported')
     ef = dict(db['ef_members'])
     lines = [
         '(* GENERATED by translate/c16_fgd.py from srctools/fgd.py, _engine_db.py, tokenizer.py, const.py. Do not edit. *)',
-        'From Coq Require Import List NArith String.', 'From SV Require Import Fmt.LongString Fmt.FgdLine SM.LazyDbMulti.',
+        'From Coq Require Import List NArith String.', 'From SV Require Import Fmt.LongString Fmt.FgdLine Fmt.FgdTypeText SM.LazyDbMulti.',
         'Import ListNotations.', 'Open Scope string_scope.',
         'Inductive cmp_op := OpGt | OpGe | OpLt | OpLe | OpEq | OpNe.',
         '(* tokenizer.ESCAPES as (symbol, character); characters escape_text() never escapes *)',
@@ -1516,6 +1755,10 @@ def translate() -> tuple[str, dict]:
         f'Definition gen_line_cfg : FgdLine.line_cfg := {{| FgdLine.colons_before_desc_without_default := {tw["colons_without_default"]}; '
         f'FgdLine.bool_default_filled := {_b(tw["bool_fill"])}; FgdLine.res_block_if_defined := {_b(tw["res_if_defined"])} |}}.',
         f'Definition kv_colons_after_default : nat := {tw["colons_with_default"]}.',
+        '(* KVDef._parse / IODef._parse: how the text between the parentheses becomes the type (Fmt/FgdTypeText.v); VALUE_TYPE_LOOKUP *)',
+        'Definition vt_lookup_tab : list (list N * list N) := [' + '; '.join(f'({_cstr(k)}, {_cstr(v)})' for k, v in tt['table']) + '].',
+        f'Definition kv_type_prog : tprog := {tt["kv_prog"][1:-1]}.',
+        f'Definition io_type_prog : tprog := {tt["io_prog"][1:-1]}.',
         '(* _engine_db tables *)',
         f'Definition value_types_all : list string := {_slist(n for n, _ in db["vt_members"])}.',
         f'Definition value_type_order : list string := {_slist(db["vt_order"])}.',
@@ -1547,7 +1790,7 @@ def translate() -> tuple[str, dict]:
     ]
     if wl['notfound'] < 0:
         raise TranslateError('not-found comparison value is negative')
-    side = dict(multi_db=md, write_longstring=wl, fgd_escape=fe, text_writers=tw, tokenizer=tok_side, engine_db={k: v for k, v in db.items() if k != 'bits'},
+    side = dict(type_text=tt, multi_db=md, write_longstring=wl, fgd_escape=fe, text_writers=tw, tokenizer=tok_side, engine_db={k: v for k, v in db.items() if k != 'bits'},
                 bit_ops=db['bits'])
     return '\n'.join(lines), side
 
